@@ -108,8 +108,13 @@ def run_shard(shard, rec):
     for i in range(shard["count"]):
         # every tenth program is a large one (up to 30 operations per phase instead of 12)
         big = i % 10 == 9
-        g = prog.Gen(rng, profile="py", max_ops=30 if big else 12)
+        # every fifth program registers user functions under plain names that its variables use too
+        shadow = i % 5 == 3
+        g = prog.Gen(rng, profile="py", max_ops=30 if big else 12, shadow_funcs=shadow, call_bias=0.15 if shadow else 0.0)
         script = g.script()
+        if shadow:
+            rec.count("programs_with_function_named_like_variable",
+                      int(any(not f.startswith("<") for f in script.get("funcs", {}))))
         if big:
             rec.count("large_programs")
         outcome = check_script(script, rec)
